@@ -91,6 +91,12 @@ Theorem C16_producer_rejects : forall code reg data, ~ (0 <= code < 65536 /\ 0 <
   producer_send code reg data = Err E_STRUCT.
 Proof. exact encode_rejects. Qed.
 
+(* any sequence of messages from one producer into a consumer: message i (sent at ts + i) is logged with its
+   own code, register and zero-padded data, whatever was sent before it *)
+Theorem C16_producer_sequence : forall msgs s ts, Forall msg_ok msgs ->
+  s_log (produce_all s ts msgs) = s_log s ++ msg_entries ts msgs.
+Proof. exact producer_sequence. Qed.
+
 (* ---- descriptions: all 65536 codes (finite domain, complete evaluation in the kernel) ---- *)
 Theorem C16_desc_table_is_cia301 : forall c, 0 <= c < 65536 -> get_desc c = str_codes (cia301_class c).
 Proof. exact desc_table_is_cia301. Qed.
@@ -186,6 +192,7 @@ Print Assumptions C16_producer_consumer_roundtrip.
 Print Assumptions C16_producer_into_consumer.
 Print Assumptions C16_producer_reset.
 Print Assumptions C16_producer_rejects.
+Print Assumptions C16_producer_sequence.
 Print Assumptions C16_desc_table_is_cia301.
 Print Assumptions C16_wait_next_match.
 Print Assumptions C16_wait_handed_first_match.
